@@ -217,6 +217,23 @@ def oracle_state(H):
             return f"filterby('degree', 2, {mode!r}) wrong"
     if list(H.edges.filterby("size", (1, 2), "between")) != [e for e in edges if 1 <= len(mem[e]) <= 2]:
         return "filterby between wrong"
+    # filterby_attr: exactly the ids whose attribute (or the imputed `missing` value) satisfies the comparison
+    cmps = (("eq", lambda x, a, b: x == a), ("neq", lambda x, a, b: x != a), ("lt", lambda x, a, b: x < a),
+            ("gt", lambda x, a, b: x > a), ("leq", lambda x, a, b: x <= a), ("geq", lambda x, a, b: x >= a),
+            ("between", lambda x, a, b: a <= x <= b))
+    for kind, view, ids in (("node", H.nodes, nodes), ("edge", H.edges, edges)):
+        for name in int_attr_names(H, kind):
+            for missing in (None, 0):
+                vals = {i: view[i].get(name, missing) for i in ids}
+                vals = {i: (missing if x is None and name not in view[i] else x) for i, x in vals.items()}
+                for mode, fn in cmps:
+                    for a in (0, 1, 2):
+                        arg = (a, a + 1) if mode == "between" else a
+                        want = [i for i in ids if vals[i] is not None and fn(vals[i], a, a + 1)]
+                        got = list(view.filterby_attr(name, arg, mode, missing=missing))
+                        if got != want:
+                            return (f"{kind}s.filterby_attr({name!r}, {arg}, {mode!r}, missing={missing}) = {got}, "
+                                    f"the ids satisfying the comparison are {want}")
     return None
 
 
